@@ -124,6 +124,9 @@ def jobs_for(pid, tier):
                                         prelude="PreludeClass")))
         J.append(("interleaved", base_consts(["get_qualified", "get_pointer", "get_reference"], 3 if q else 4,
                                              types=(12,), quals=(0, 1, 2, 4, 6))))
+        # qualifier sets with extended qualifiers (high bits of the representation) merged with and into standard ones
+        J.append(("extended", base_consts(["get_qualified"], 3 if q else 4, types=(12,), quals=(1, 6, 8, 16, 9, 24),
+                                          prelude="PreludeClass")))
     elif pid == "C13":
         words = BUILTIN_WORDS + ["default", "C", "C++", "nullptr", "in", "Int", "intt", "auto", "false", "this"]
         J.append(("routes", base_consts(["get_identifier", "get_identifier_s", "get_as_type_id", "get_label", "get_linkage",
